@@ -171,6 +171,7 @@ func checkC12(c *Ctx) {
 	// ---- R3 relational guard presence
 	r := c.diffRel()
 	checkDiffsTo(c, r)
+	checkSideMixing(c, "C12.R3.side-mixing", r)
 	c.Rule("C12.R3.difference-trigger", "every difference emission is control-dependent (locally or at every call site) on a relational trigger of difference polarity: a spec never differs from itself", 55)
 	for _, bs := range bindSites(c, r, "C12.R3.difference-trigger") {
 		trigs := bs.Derived
